@@ -667,9 +667,9 @@ class CSSMatch(_DocumentNav):
         r = ranges[rindex]
         s = subtags[sindex]
 
-        # Empty specified language should match unspecified language attributes
-        if length == 1 and slength == 1 and not r and r == s:
-            return True
+        # Empty specified language should only match unspecified (empty) language attributes
+        if length == 1 and not r:
+            return slength == 1 and r == s
 
         # Primary tag needs to match
         if (r != '*' and r != s) or (r == '*' and slength == 1 and not s):
